@@ -162,17 +162,20 @@ Fixpoint resolve_in (tab : symtab) (first : bytes) (rest : list bytes) (scs : li
 
 Definition resolve (tab : symtab) (scope : qname) (ref : bytes) : option (qname * Z) :=
   match ref with
-  | 46 :: abs =>
-    let n := split_dots abs in
-    match find_sym tab n with
-    | Some k => if is_type k then Some (n, k) else None
-    | None => None
-    end
-  | _ =>
-    match split_dots ref with
-    | [] => None
-    | first :: rest => resolve_in tab first rest (scopes scope)
-    end
+  | [] => None
+  | c :: abs =>
+    if c =? 46 then
+      (* leading '.': fully qualified *)
+      let n := split_dots abs in
+      match find_sym tab n with
+      | Some k => if is_type k then Some (n, k) else None
+      | None => None
+      end
+    else
+      match split_dots ref with
+      | [] => None
+      | first :: rest => resolve_in tab first rest (scopes scope)
+      end
   end.
 
 (* ------------------------------------------------------------------------------------------------ *)
@@ -462,3 +465,33 @@ Section QParse.
       let '(o, s2) := qparse_opt fuel 1 (pm_out pm) s1 in
       (out ++ [(pm, i, o)], s2)) ms ([], {| q_cache := []; q_nodes := [] |}).
 End QParse.
+
+(* which declaration the node reached from node [i] along the message-typed fields [path] was built from *)
+Fixpoint q_follow (nodes : list (qname * list (mfield Z))) (path : list Z) (i : Z) : option qname :=
+  match nth_error nodes (Z.to_nat i) with
+  | None => None
+  | Some (nm, fs) =>
+    match path with
+    | [] => Some nm
+    | n :: p =>
+      match by_number_spec fs n with
+      | LRes (Some f) => match mf_tmsg f with Some j => q_follow nodes p j | None => None end
+      | _ => None
+      end
+    end
+  end.
+
+(* the same walk in the specification table *)
+Fixpoint spec_follow (t : msgtab) (path : list Z) (m : qname) : option qname :=
+  match lookup_msg t m with
+  | None => None
+  | Some fs =>
+    match path with
+    | [] => Some m
+    | n :: p =>
+      match by_number_spec fs n with
+      | LRes (Some f) => match mf_tmsg f with Some j => spec_follow t p j | None => None end
+      | _ => None
+      end
+    end
+  end.
